@@ -18,11 +18,11 @@ theorem nodup_map_inj {α β : Type} {f : α → β} :
   | [], _, x, hx, _, _, _ => by cases hx
   | a :: l, h, x, hx, y, hy, hxy => by
     rw [List.map_cons, List.nodup_cons] at h
-    rcases List.mem_cons.1 hx with hxa | hx <;> rcases List.mem_cons.1 hy with hya | hy
+    rcases List.mem_cons.1 hx with hxa | hx' <;> rcases List.mem_cons.1 hy with hya | hy'
     · rw [hxa, hya]
-    · subst hxa; exact absurd (hxy ▸ List.mem_map_of_mem hy) h.1
-    · subst hya; exact absurd (hxy ▸ List.mem_map_of_mem hx) h.1
-    · exact nodup_map_inj h.2 x hx y hy hxy
+    · subst hxa; exact absurd (hxy ▸ List.mem_map_of_mem hy') h.1
+    · subst hya; exact absurd (hxy ▸ List.mem_map_of_mem hx') h.1
+    · exact nodup_map_inj h.2 x hx' y hy' hxy
 
 theorem nodup_of_nodup_map {α β : Type} (f : α → β) :
     ∀ {l : List α}, (l.map f).Nodup → l.Nodup
@@ -69,7 +69,7 @@ theorem modify_split {α : Type} (A B : List α) (c : α) (f : α → α) :
 theorem getD_split {α : Type} (A B : List α) (c d : α) : (A ++ c :: B).getD A.length d = c := by
   induction A with
   | nil => rfl
-  | cons a A ih => simp [ih]
+  | cons a A ih => simp
 
 /-! ## 1. representation invariant -/
 
@@ -206,5 +206,772 @@ theorem inv_resize {hash : K → Nat} {m : Map K V} {n : Nat} (h : Inv hash m) (
   wf := (rehash_spec hash n hn m.buckets.flatten _ List.length_replicate (wf_replicate hash n)).2.1
   nodup := ((resize_perm h hn).map _).nodup_iff.2 h.nodup
   size_eq := by rw [size_resize, h.size_eq, (resize_perm h hn).length_eq]
+
+/-! ## 2. lookups -/
+
+/-- the entries of the table, in iteration order -/
+def entries (m : Map K V) : List (Entry K V) := m.buckets.flatten
+
+/-- `get` returns `v` exactly when some entry of the table carries `(k, v)` -/
+theorem get_some_iff {hash : K → Nat} {m : Map K V} (h : Inv hash m) (k : K) (v : V) :
+    get hash m k = some v ↔ ∃ e ∈ m.buckets.flatten, e.key = k ∧ e.val = v := by
+  unfold get findChain
+  simp only [Option.map_eq_some_iff, List.getD_eq_getElem?_getD]
+  constructor
+  · rintro ⟨e, hf, hv⟩
+    have hp := List.find?_some hf
+    have hm := List.mem_of_find?_eq_some hf
+    simp only [Bool.and_eq_true, decide_eq_true_eq] at hp
+    cases hb : m.buckets[hash k % m.buckets.length]? with
+    | none => simp [hb] at hm
+    | some c =>
+      simp only [hb, Option.getD_some] at hm
+      exact ⟨e, mem_flatten_of_getElem? hb hm, hp.2, hv⟩
+  · rintro ⟨e, he, hk, hv⟩
+    obtain ⟨hh, c, hc, hec⟩ := mem_flatten_wf h.wf he
+    rw [hk] at hc hh
+    simp only [hc, Option.getD_some]
+    have hs : (c.find? (fun e => e.hash == hash k && decide (e.key = k))).isSome := by
+      rw [List.find?_isSome]; exact ⟨e, hec, by simp [hh, hk]⟩
+    obtain ⟨e', he'⟩ := Option.isSome_iff_exists.1 hs
+    have hp := List.find?_some he'
+    simp only [Bool.and_eq_true, decide_eq_true_eq] at hp
+    have := nodup_map_inj h.nodup e' (mem_flatten_of_getElem? hc (List.mem_of_find?_eq_some he')) e he
+      (hp.2.trans hk.symm)
+    exact ⟨e', he', by rw [this, hv]⟩
+
+theorem get_eq_none_iff {hash : K → Nat} {m : Map K V} (h : Inv hash m) (k : K) :
+    get hash m k = none ↔ ∀ e ∈ m.buckets.flatten, e.key ≠ k := by
+  constructor
+  · intro hn e he hk
+    have := (get_some_iff h k e.val).2 ⟨e, he, hk, rfl⟩
+    rw [hn] at this; cases this
+  · intro hall
+    cases hg : get hash m k with
+    | none => rfl
+    | some v =>
+      obtain ⟨e, he, hk, _⟩ := (get_some_iff h k v).1 hg
+      exact absurd hk (hall e he)
+
+theorem get_new (hash : K → Nat) (k : K) : get hash (new : Map K V) k = none :=
+  (get_eq_none_iff (inv_new hash) k).2 (by simp [new])
+
+theorem resize_preserves_get {hash : K → Nat} {m : Map K V} {n : Nat} (h : Inv hash m) (hn : 0 < n) (k : K) :
+    get hash (resize hash m n) k = get hash m k := by
+  apply Option.ext
+  intro v
+  rw [get_some_iff (inv_resize h hn), get_some_iff h]
+  constructor <;> rintro ⟨e, he, hkv⟩
+  · exact ⟨e, (resize_perm h hn).mem_iff.1 he, hkv⟩
+  · exact ⟨e, (resize_perm h hn).mem_iff.2 he, hkv⟩
+
+/-! ### set -/
+
+theorem updateChain_split {h : Nat} {k : K} (v : V) {e0 : Entry K V} :
+    ∀ {c : List (Entry K V)}, findChain c h k = some e0 →
+      ∃ c1 c2, c = c1 ++ e0 :: c2 ∧ updateChain c h k v = c1 ++ { e0 with val := v } :: c2
+  | [], hf => by simp [findChain] at hf
+  | e :: es, hf => by
+    unfold findChain at hf
+    rw [List.find?_cons] at hf
+    unfold updateChain
+    split at hf
+    · rename_i hp
+      cases hf
+      exact ⟨[], es, rfl, by simp [hp]⟩
+    · rename_i hp
+      obtain ⟨c1, c2, h1, h2⟩ := updateChain_split v (c := es) hf
+      refine ⟨e :: c1, c2, by simp [h1], ?_⟩
+      simp only [hp, Bool.false_eq_true, if_false, h2, List.cons_append]
+
+/-- the part of `set` after the optional resize -/
+def setCore (hash : K → Nat) (m : Map K V) (k : K) (v : V) : Map K V :=
+  let h := hash k
+  let b := h % m.buckets.length
+  let chain := m.buckets.getD b []
+  match findChain chain h k with
+  | some _ => ⟨m.buckets.set b (updateChain chain h k v), m.size⟩
+  | none => ⟨pushAt m.buckets b ⟨h, k, v⟩, m.size + 1⟩
+
+theorem set_eq (hash : K → Nat) (m : Map K V) (k : K) (v : V) :
+    set hash m k v = setCore hash
+      (if m.size ≥ threshold m.buckets.length then resize hash m (m.buckets.length * 2) else m) k v := rfl
+
+/-- the effect of `setCore` on the entry list: either one entry with key `k` has its value overwritten in
+    place, or there was none and a new one is added -/
+theorem setCore_spec {hash : K → Nat} {m : Map K V} (h : Inv hash m) (k : K) (v : V) :
+    (setCore hash m k v).buckets.length = m.buckets.length ∧ WF hash (setCore hash m k v).buckets ∧
+    ((∃ L R e0, e0.key = k ∧ m.buckets.flatten = L ++ e0 :: R ∧
+        (setCore hash m k v).buckets.flatten = L ++ { e0 with val := v } :: R ∧
+        (setCore hash m k v).size = m.size) ∨
+     ((∀ e ∈ m.buckets.flatten, e.key ≠ k) ∧
+        (setCore hash m k v).buckets.flatten.Perm (⟨hash k, k, v⟩ :: m.buckets.flatten) ∧
+        (setCore hash m k v).size = m.size + 1)) := by
+  have hb : hash k % m.buckets.length < m.buckets.length := h.index_lt k
+  have hwf := h.wf
+  obtain ⟨A, B, hAB, hl⟩ := split_at m.buckets _ _ (List.getElem?_eq_getElem hb)
+  generalize hc : m.buckets[hash k % m.buckets.length] = c at hAB
+  have hget : m.buckets[hash k % m.buckets.length]? = some c := by rw [List.getElem?_eq_getElem hb, hc]
+  have hcD : m.buckets.getD (hash k % m.buckets.length) [] = c := by
+    rw [List.getD_eq_getElem?_getD, hget]; rfl
+  unfold setCore
+  simp only [hcD]
+  cases hf : findChain c (hash k) k with
+  | some e0 =>
+    simp only
+    obtain ⟨c1, c2, hc12, hupd⟩ := updateChain_split v hf
+    have he0 : e0.hash = hash k ∧ e0.key = k := by
+      have := List.find?_some hf
+      simpa using this
+    refine ⟨by simp, ?_, Or.inl ⟨A.flatten ++ c1, c2 ++ B.flatten, e0, he0.2, ?_, ?_, trivial⟩⟩
+    · intro i c' hc' x hx
+      rw [List.length_set]
+      rw [List.getElem?_set] at hc'
+      split at hc'
+      · rename_i hi
+        cases hc'
+        subst hi
+        rw [hupd] at hx
+        have hxc : x ∈ c ∨ (x.hash = e0.hash ∧ x.key = e0.key) := by
+          rw [hc12]
+          simp only [List.mem_append, List.mem_cons] at hx ⊢
+          rcases hx with hx | rfl | hx
+          · exact Or.inl (Or.inl hx)
+          · exact Or.inr ⟨rfl, rfl⟩
+          · exact Or.inl (Or.inr (Or.inr hx))
+        rcases hxc with hxc | ⟨hx1, hx2⟩
+        · exact hwf _ c hget x hxc
+        · have := hwf _ c hget e0 (by rw [hc12]; simp)
+          rw [hx1, hx2]; exact this
+      · exact hwf i c' hc' x hx
+    · rw [hAB, hc12]; simp
+    · rw [hupd]
+      conv => lhs; rw [← hl, hAB, set_split]
+      simp
+  | none =>
+    simp only
+    have hnone : ∀ e ∈ m.buckets.flatten, e.key ≠ k := by
+      intro e he hk
+      obtain ⟨hh, c', hc', hec⟩ := mem_flatten_wf hwf he
+      rw [hk] at hc' hh
+      rw [hget] at hc'; cases hc'
+      have := List.find?_eq_none.1 hf e hec
+      simp [hh, hk] at this
+    refine ⟨length_pushAt _ _ _, ?_, Or.inr ⟨hnone, flatten_pushAt_perm hb _, trivial⟩⟩
+    exact wf_pushAt (e := ⟨hash k, k, v⟩) hwf rfl
+
+theorem inv_setCore {hash : K → Nat} {m : Map K V} (h : Inv hash m) (k : K) (v : V) :
+    Inv hash (setCore hash m k v) := by
+  obtain ⟨hlen, hwf, hcase⟩ := setCore_spec h k v
+  refine ⟨by rw [hlen]; exact h.pos, hwf, ?_, ?_⟩
+  · rcases hcase with ⟨L, R, e0, _, hold, hnew, _⟩ | ⟨hno, hperm, _⟩
+    · have := h.nodup
+      rw [hold] at this
+      rw [hnew]
+      simpa using this
+    · rw [(hperm.map _).nodup_iff, List.map_cons, List.nodup_cons]
+      refine ⟨?_, h.nodup⟩
+      intro hmem
+      obtain ⟨e, he, hk⟩ := List.mem_map.1 hmem
+      exact hno e he hk
+  · rcases hcase with ⟨L, R, e0, _, hold, hnew, hsz⟩ | ⟨_, hperm, hsz⟩
+    · rw [hsz, h.size_eq, hold, hnew]; simp
+    · rw [hsz, h.size_eq, hperm.length_eq]; simp
+
+theorem get_setCore_same {hash : K → Nat} {m : Map K V} (h : Inv hash m) (k : K) (v : V) :
+    get hash (setCore hash m k v) k = some v := by
+  rw [get_some_iff (inv_setCore h k v)]
+  obtain ⟨_, _, hcase⟩ := setCore_spec h k v
+  rcases hcase with ⟨L, R, e0, hk, _, hnew, _⟩ | ⟨_, hperm, _⟩
+  · exact ⟨{ e0 with val := v }, by rw [hnew]; simp, hk, rfl⟩
+  · exact ⟨⟨hash k, k, v⟩, hperm.mem_iff.2 (by simp), rfl, rfl⟩
+
+theorem get_setCore_other {hash : K → Nat} {m : Map K V} (h : Inv hash m) {k k' : K} (hne : k' ≠ k) (v : V) :
+    get hash (setCore hash m k v) k' = get hash m k' := by
+  apply Option.ext
+  intro w
+  rw [get_some_iff (inv_setCore h k v), get_some_iff h]
+  obtain ⟨_, _, hcase⟩ := setCore_spec h k v
+  rcases hcase with ⟨L, R, e0, hk, hold, hnew, _⟩ | ⟨_, hperm, _⟩
+  · rw [hold, hnew]
+    constructor
+    · rintro ⟨e, he, hek, hev⟩
+      simp only [List.mem_append, List.mem_cons] at he
+      rcases he with he | rfl | he
+      · exact ⟨e, by simp [he], hek, hev⟩
+      · exact absurd (hek.symm.trans hk) hne
+      · exact ⟨e, by simp [he], hek, hev⟩
+    · rintro ⟨e, he, hek, hev⟩
+      simp only [List.mem_append, List.mem_cons] at he
+      rcases he with he | rfl | he
+      · exact ⟨e, by simp [he], hek, hev⟩
+      · exact absurd (hek.symm.trans hk) hne
+      · exact ⟨e, by simp [he], hek, hev⟩
+  · constructor
+    · rintro ⟨e, he, hek, hev⟩
+      rcases List.mem_cons.1 (hperm.mem_iff.1 he) with rfl | he
+      · exact absurd hek.symm hne
+      · exact ⟨e, he, hek, hev⟩
+    · rintro ⟨e, he, hek, hev⟩
+      exact ⟨e, hperm.mem_iff.2 (List.mem_cons_of_mem _ he), hek, hev⟩
+
+theorem size_setCore {hash : K → Nat} {m : Map K V} (h : Inv hash m) (k : K) (v : V) :
+    (setCore hash m k v).size = if (get hash m k).isSome then m.size else m.size + 1 := by
+  obtain ⟨_, _, hcase⟩ := setCore_spec h k v
+  rcases hcase with ⟨L, R, e0, hk, hold, _, hsz⟩ | ⟨hno, _, hsz⟩
+  · have : get hash m k = some e0.val := (get_some_iff h k _).2 ⟨e0, by rw [hold]; simp, hk, rfl⟩
+    rw [hsz, this]; rfl
+  · have : get hash m k = none := (get_eq_none_iff h k).2 hno
+    rw [hsz, this]; rfl
+
+/-- the map `set` works on after its optional resize -/
+def presize (hash : K → Nat) (m : Map K V) : Map K V :=
+  if m.size ≥ threshold m.buckets.length then resize hash m (m.buckets.length * 2) else m
+
+theorem set_eq' (hash : K → Nat) (m : Map K V) (k : K) (v : V) :
+    set hash m k v = setCore hash (presize hash m) k v := rfl
+
+theorem inv_presize {hash : K → Nat} {m : Map K V} (h : Inv hash m) : Inv hash (presize hash m) := by
+  unfold presize; split
+  · exact inv_resize h (Nat.mul_pos h.pos (by decide))
+  · exact h
+
+theorem get_presize {hash : K → Nat} {m : Map K V} (h : Inv hash m) (k : K) :
+    get hash (presize hash m) k = get hash m k := by
+  unfold presize; split
+  · exact resize_preserves_get h (Nat.mul_pos h.pos (by decide)) k
+  · rfl
+
+theorem size_presize (hash : K → Nat) (m : Map K V) : (presize hash m).size = m.size := by
+  unfold presize; split <;> rfl
+
+theorem inv_set {hash : K → Nat} {m : Map K V} (h : Inv hash m) (k : K) (v : V) : Inv hash (set hash m k v) :=
+  inv_setCore (inv_presize h) k v
+
+theorem get_set_same {hash : K → Nat} {m : Map K V} (h : Inv hash m) (k : K) (v : V) :
+    get hash (set hash m k v) k = some v :=
+  get_setCore_same (inv_presize h) k v
+
+theorem get_set_other {hash : K → Nat} {m : Map K V} (h : Inv hash m) {k k' : K} (hne : k' ≠ k) (v : V) :
+    get hash (set hash m k v) k' = get hash m k' := by
+  rw [set_eq', get_setCore_other (inv_presize h) hne, get_presize h]
+
+theorem get_set {hash : K → Nat} {m : Map K V} (h : Inv hash m) (k k' : K) (v : V) :
+    get hash (set hash m k v) k' = if k' = k then some v else get hash m k' := by
+  split
+  · rename_i hk; subst hk; exact get_set_same h _ v
+  · rename_i hk; exact get_set_other h hk v
+
+/-- size counts distinct keys: it grows exactly when the key was absent -/
+theorem size_set {hash : K → Nat} {m : Map K V} (h : Inv hash m) (k : K) (v : V) :
+    (set hash m k v).size = if (get hash m k).isSome then m.size else m.size + 1 := by
+  rw [set_eq', size_setCore (inv_presize h), get_presize h, size_presize]
+
+/-- the bucket count only changes by the doubling of the optional resize -/
+theorem length_set {hash : K → Nat} {m : Map K V} (h : Inv hash m) (k : K) (v : V) :
+    (set hash m k v).buckets.length =
+      if m.size ≥ threshold m.buckets.length then m.buckets.length * 2 else m.buckets.length := by
+  rw [set_eq', (setCore_spec (inv_presize h) k v).1]
+  unfold presize; split
+  · exact length_resize hash m (Nat.mul_pos h.pos (by decide))
+  · rfl
+
+/-- load bound kept by `set` (so chains stay short and the resize trigger is never skipped) -/
+theorem load_bound_set {hash : K → Nat} {m : Map K V} (h : Inv hash m) (k : K) (v : V)
+    (hb : m.size ≤ threshold m.buckets.length + 1) :
+    (set hash m k v).size ≤ threshold (set hash m k v).buckets.length + 1 := by
+  have hs : (set hash m k v).size ≤ m.size + 1 := by
+    rw [size_set h]; split <;> omega
+  rw [length_set h]
+  have hp := h.pos
+  unfold threshold at *
+  split <;> omega
+
+/-- spatial safety of `set`: the bucket it reads and writes (after its optional resize) exists -/
+theorem set_index_in_bounds {hash : K → Nat} {m : Map K V} (h : Inv hash m) (k : K) :
+    hash k % (presize hash m).buckets.length < (presize hash m).buckets.length :=
+  (inv_presize h).index_lt k
+
+/-- spatial safety of `get`: the bucket it reads exists -/
+theorem get_index_in_bounds {hash : K → Nat} {m : Map K V} (h : Inv hash m) (k : K) :
+    hash k % m.buckets.length < m.buckets.length := h.index_lt k
+
+theorem has_eq (hash : K → Nat) (m : Map K V) (k : K) : has hash m k = (get hash m k).isSome := rfl
+
+/-! ## 3. iteration -/
+
+theorem iterate_keys (m : Map K V) : (iterate m).map (·.1) = m.buckets.flatten.map (·.key) := by
+  simp [iterate, List.map_map, Function.comp_def]
+
+theorem iterate_nodup_keys {hash : K → Nat} {m : Map K V} (h : Inv hash m) : ((iterate m).map (·.1)).Nodup := by
+  rw [iterate_keys]; exact h.nodup
+
+theorem iterate_nodup {hash : K → Nat} {m : Map K V} (h : Inv hash m) : (iterate m).Nodup :=
+  nodup_of_nodup_map _ (iterate_nodup_keys h)
+
+/-- every entry is visited exactly once -/
+theorem iterate_length {hash : K → Nat} {m : Map K V} (h : Inv hash m) : (iterate m).length = m.size := by
+  rw [iterate, List.length_map, h.size_eq]
+
+theorem mem_iterate_iff {hash : K → Nat} {m : Map K V} (h : Inv hash m) (k : K) (v : V) :
+    (k, v) ∈ iterate m ↔ get hash m k = some v := by
+  rw [get_some_iff h, iterate, List.mem_map]
+  constructor
+  · rintro ⟨e, he, heq⟩
+    cases heq
+    exact ⟨e, he, rfl, rfl⟩
+  · rintro ⟨e, he, rfl, rfl⟩
+    exact ⟨e, he, rfl⟩
+
+/-- `get` agrees with what iteration shows -/
+theorem get_eq_lookup {hash : K → Nat} {m : Map K V} (h : Inv hash m) (k : K) :
+    get hash m k = ((iterate m).find? (fun p => p.1 = k)).map (·.2) := by
+  apply Option.ext
+  intro v
+  rw [← mem_iterate_iff h, Option.map_eq_some_iff]
+  constructor
+  · intro hm
+    exact ⟨(k, v), (find?_key_eq_some_iff (f := Prod.fst) (iterate_nodup_keys h) k (k, v)).2 ⟨hm, rfl⟩, rfl⟩
+  · rintro ⟨⟨k', v'⟩, hf, hv⟩
+    obtain ⟨hm, hk⟩ := (find?_key_eq_some_iff (f := Prod.fst) (iterate_nodup_keys h) k (k', v')).1 hf
+    simp only at hk hv
+    subst hk; subst hv
+    exact hm
+
+/-! ## 4. refinement of the association-list specification -/
+
+theorem spec_get_some_iff {s : Spec K V} (hs : (s.map (·.1)).Nodup) (k : K) (v : V) :
+    s.get k = some v ↔ (k, v) ∈ s := by
+  unfold Spec.get
+  rw [Option.map_eq_some_iff]
+  constructor
+  · rintro ⟨⟨k', v'⟩, hf, hv⟩
+    obtain ⟨hm, hk⟩ := (find?_key_eq_some_iff (f := fun p : K × V => p.1) hs k (k', v')).1 hf
+    simp only at hk hv
+    subst hk; subst hv
+    exact hm
+  · intro hm
+    exact ⟨(k, v), (find?_key_eq_some_iff (f := fun p : K × V => p.1) hs k (k, v)).2 ⟨hm, rfl⟩, rfl⟩
+
+theorem spec_get_replace (s : Spec K V) (k k' : K) (v : V) :
+    Spec.get (s.map (fun p => if p.1 = k then (k, v) else p)) k' =
+      if k' = k then (if s.any (fun p => decide (p.1 = k)) then some v else none) else Spec.get s k' := by
+  induction s with
+  | nil => simp [Spec.get]
+  | cons p s ih =>
+    unfold Spec.get at ih ⊢
+    rw [List.map_cons, List.find?_cons, List.find?_cons, List.any_cons]
+    by_cases hpk : p.1 = k <;> by_cases hk : k' = k
+    · subst hk; simp [hpk]
+    · have : ¬ p.1 = k' := fun h => hk (h.symm.trans hpk)
+      have hk2 : ¬ k = k' := fun h => hk h.symm
+      simp only [hpk, if_true, hk, if_false, hk2, decide_false] at ih ⊢
+      exact ih
+    · subst hk
+      simp only [hpk, if_false, decide_false, Bool.false_or, if_true] at ih ⊢
+      exact ih
+    · simp only [hpk, if_false, hk] at ih ⊢
+      split
+      · rfl
+      · exact ih
+
+theorem spec_get_set (s : Spec K V) (k k' : K) (v : V) :
+    (s.set k v).get k' = if k' = k then some v else s.get k' := by
+  unfold Spec.set
+  split
+  · rename_i hany
+    rw [spec_get_replace, hany]; rfl
+  · rename_i hany
+    have hnone : s.find? (fun p => decide (p.1 = k)) = none := by
+      rw [List.find?_eq_none]
+      intro x hx hp
+      exact hany (List.any_eq_true.2 ⟨x, hx, hp⟩)
+    unfold Spec.get
+    rw [List.find?_append]
+    by_cases hk : k' = k
+    · subst hk
+      simp [hnone]
+    · have hk2 : ¬ k = k' := fun h => hk h.symm
+      simp [hk, hk2]
+
+theorem spec_keys_set {s : Spec K V} (hs : (s.map (·.1)).Nodup) (k : K) (v : V) :
+    ((s.set k v).map (·.1)).Nodup := by
+  unfold Spec.set
+  split
+  · have : (s.map (fun p => if p.1 = k then (k, v) else p)).map (·.1) = s.map (·.1) := by
+      rw [List.map_map]
+      apply List.map_congr_left
+      intro p _
+      simp only [Function.comp]
+      split
+      · rename_i h; exact h.symm
+      · rfl
+    rw [this]; exact hs
+  · rename_i hany
+    rw [List.map_append, List.nodup_append]
+    refine ⟨hs, by simp, ?_⟩
+    intro a ha b hb hab
+    simp only [List.map_cons, List.map_nil, List.mem_singleton] at hb
+    obtain ⟨p, hp, hpa⟩ := List.mem_map.1 ha
+    apply hany
+    exact List.any_eq_true.2 ⟨p, hp, by simp [hpa, hab, hb]⟩
+
+/-- the refinement relation: the table is well formed and answers lookups like the association list -/
+def Rel (hash : K → Nat) (m : Map K V) (s : Spec K V) : Prop :=
+  Inv hash m ∧ (s.map (·.1)).Nodup ∧ ∀ k, get hash m k = s.get k
+
+theorem rel_new (hash : K → Nat) : Rel hash (new : Map K V) [] :=
+  ⟨inv_new hash, List.nodup_nil, fun k => by rw [get_new]; rfl⟩
+
+/-- related states hold the same entries (iteration order may differ) -/
+theorem rel_perm {hash : K → Nat} {m : Map K V} {s : Spec K V} (h : Rel hash m s) : (iterate m).Perm s := by
+  obtain ⟨hinv, hs, hget⟩ := h
+  rw [List.perm_ext_iff_of_nodup (iterate_nodup hinv) (nodup_of_nodup_map _ hs)]
+  rintro ⟨k, v⟩
+  rw [mem_iterate_iff hinv, hget, spec_get_some_iff hs]
+
+theorem rel_size {hash : K → Nat} {m : Map K V} {s : Spec K V} (h : Rel hash m s) : m.size = s.length := by
+  rw [← iterate_length h.1, (rel_perm h).length_eq]
+
+theorem rel_set {hash : K → Nat} {m : Map K V} {s : Spec K V} (h : Rel hash m s) (k : K) (v : V) :
+    Rel hash (set hash m k v) (s.set k v) := by
+  obtain ⟨hinv, hs, hget⟩ := h
+  refine ⟨inv_set hinv k v, spec_keys_set hs k v, fun k' => ?_⟩
+  rw [get_set hinv, spec_get_set, hget]
+
+/-- when two outputs count as the same observation: iteration results up to order, everything else exactly -/
+def OutAgree : Out K V → Out K V → Prop
+  | .unit, .unit => True
+  | .val a, .val b => a = b
+  | .bool a, .bool b => a = b
+  | .nat a, .nat b => a = b
+  | .entries a, .entries b => a.Perm b
+  | _, _ => False
+
+theorem step_refines {hash : K → Nat} {m : Map K V} {s : Spec K V} (h : Rel hash m s) (op : Op K V) :
+    Rel hash (stepImpl hash m op).1 (stepSpec s op).1 ∧
+      OutAgree (stepImpl hash m op).2 (stepSpec s op).2 := by
+  cases op with
+  | set k v => exact ⟨rel_set h k v, trivial⟩
+  | get k => exact ⟨h, h.2.2 k⟩
+  | has k => exact ⟨h, by simp only [stepImpl, stepSpec, OutAgree, has, h.2.2 k]⟩
+  | size => exact ⟨h, rel_size h⟩
+  | iter => exact ⟨h, rel_perm h⟩
+
+/-- run a history, collecting the outputs and the final state -/
+def runImpl (hash : K → Nat) : Map K V → List (Op K V) → Map K V × List (Out K V)
+  | m, [] => (m, [])
+  | m, op :: ops =>
+    let r := runImpl hash (stepImpl hash m op).1 ops
+    (r.1, (stepImpl hash m op).2 :: r.2)
+
+def runSpec : Spec K V → List (Op K V) → Spec K V × List (Out K V)
+  | s, [] => (s, [])
+  | s, op :: ops =>
+    let r := runSpec (stepSpec s op).1 ops
+    (r.1, (stepSpec s op).2 :: r.2)
+
+/-- pairwise agreement of two output sequences (in particular: same length) -/
+def OutsAgree : List (Out K V) → List (Out K V) → Prop
+  | [], [] => True
+  | a :: as, b :: bs => OutAgree a b ∧ OutsAgree as bs
+  | _, _ => False
+
+theorem run_refines {hash : K → Nat} (ops : List (Op K V)) {m : Map K V} {s : Spec K V} (h : Rel hash m s) :
+    Rel hash (runImpl hash m ops).1 (runSpec s ops).1 ∧ OutsAgree (runImpl hash m ops).2 (runSpec s ops).2 := by
+  induction ops generalizing m s with
+  | nil => exact ⟨h, trivial⟩
+  | cons op ops ih =>
+    obtain ⟨hrel, hout⟩ := step_refines h op
+    obtain ⟨h1, h2⟩ := ih hrel
+    exact ⟨h1, hout, h2⟩
+
+/-- every history of operations on a fresh table is observationally a history on the association list -/
+theorem history_refines (hash : K → Nat) (ops : List (Op K V)) :
+    Rel hash (runImpl hash (new : Map K V) ops).1 (runSpec ([] : Spec K V) ops).1 ∧
+      OutsAgree (runImpl hash (new : Map K V) ops).2 (runSpec ([] : Spec K V) ops).2 :=
+  run_refines ops (rel_new hash)
+
+theorem outsAgree_length : ∀ {a b : List (Out K V)}, OutsAgree a b → a.length = b.length
+  | [], [], _ => rfl
+  | _ :: as, _ :: bs, h => by simp [outsAgree_length h.2]
+  | [], _ :: _, h => h.elim
+  | _ :: _, [], h => h.elim
+
+/-! ## 5. bulk construction -/
+
+theorem grow_pos (needed : Nat) : ∀ (fuel nb : Nat), 0 < nb → 0 < fromPairs.grow needed fuel nb
+  | 0, nb, h => by rw [fromPairs.grow.eq_1]; exact h
+  | fuel + 1, nb, h => by
+    rw [fromPairs.grow.eq_2]
+    split
+    · exact grow_pos needed fuel (nb * 2) (by omega)
+    · exact h
+
+theorem inv_foldl_set {hash : K → Nat} (ps : List (K × V)) {m : Map K V} (h : Inv hash m) :
+    Inv hash (ps.foldl (fun m (k, v) => set hash m k v) m) := by
+  induction ps generalizing m with
+  | nil => exact h
+  | cons p ps ih =>
+    obtain ⟨k, v⟩ := p
+    rw [List.foldl_cons]
+    exact ih (inv_set h k v)
+
+/-- after inserting `ps` in order, a key maps to the value of its LAST occurrence in `ps`, or keeps its old
+    binding if it does not occur -/
+theorem get_foldl_set {hash : K → Nat} (ps : List (K × V)) {m : Map K V} (h : Inv hash m) (k : K) :
+    get hash (ps.foldl (fun m (k, v) => set hash m k v) m) k =
+      ((ps.reverse.find? (fun p => decide (p.1 = k))).map (·.2)).or (get hash m k) := by
+  induction ps generalizing m with
+  | nil => simp
+  | cons p ps ih =>
+    obtain ⟨k0, v0⟩ := p
+    rw [List.foldl_cons, ih (inv_set h k0 v0), get_set h, List.reverse_cons, List.find?_append]
+    cases List.find? (fun p => decide (p.1 = k)) ps.reverse with
+    | some q => simp
+    | none =>
+      by_cases hk : k = k0
+      · subst hk; simp
+      · have hk2 : ¬ k0 = k := fun h => hk h.symm
+        simp [hk, hk2]
+
+/-- the table `fromPairs` starts inserting into -/
+theorem fromPairs_eq (hash : K → Nat) (ps : List (K × V)) :
+    fromPairs hash ps = ps.foldl (fun m (k, v) => set hash m k v)
+      (if ps.length * 4 / 3 + 1 > (new : Map K V).buckets.length then
+        resize hash (new : Map K V) (fromPairs.grow (ps.length * 4 / 3 + 1) 64 initialBuckets)
+       else new) := rfl
+
+theorem inv_fromPairs (hash : K → Nat) (ps : List (K × V)) : Inv hash (fromPairs hash ps) := by
+  rw [fromPairs_eq]
+  apply inv_foldl_set
+  split
+  · exact inv_resize (inv_new hash) (grow_pos _ _ _ (by decide))
+  · exact inv_new hash
+
+/-- `fromPairs` builds the map sending each key to the value of its last occurrence in the pair list -/
+theorem fromPairs_spec (hash : K → Nat) (ps : List (K × V)) (k : K) :
+    get hash (fromPairs hash ps) k = (ps.reverse.find? (fun p => decide (p.1 = k))).map (·.2) := by
+  rw [fromPairs_eq]
+  split
+  · rw [get_foldl_set _ (inv_resize (inv_new hash) (grow_pos _ _ _ (by decide))),
+      resize_preserves_get (inv_new hash) (grow_pos _ _ _ (by decide)), get_new, Option.or_none]
+  · rw [get_foldl_set _ (inv_new hash), get_new, Option.or_none]
+
+/-- `fromPairs` is the specification's fold: it is related to setting the pairs one by one -/
+theorem rel_fromPairs (hash : K → Nat) (ps : List (K × V)) :
+    Rel hash (fromPairs hash ps) (ps.foldl (fun s (k, v) => Spec.set s k v) []) := by
+  rw [fromPairs_eq]
+  have h0 : Rel hash (if ps.length * 4 / 3 + 1 > (new : Map K V).buckets.length then
+        resize hash (new : Map K V) (fromPairs.grow (ps.length * 4 / 3 + 1) 64 initialBuckets)
+       else new) ([] : Spec K V) := by
+    split
+    · refine ⟨inv_resize (inv_new hash) (grow_pos _ _ _ (by decide)), List.nodup_nil, fun k => ?_⟩
+      rw [resize_preserves_get (inv_new hash) (grow_pos _ _ _ (by decide)), get_new]; rfl
+    · exact rel_new hash
+  generalize (if ps.length * 4 / 3 + 1 > (new : Map K V).buckets.length then
+        resize hash (new : Map K V) (fromPairs.grow (ps.length * 4 / 3 + 1) 64 initialBuckets)
+       else new) = m0 at h0
+  generalize ([] : Spec K V) = s0 at h0
+  induction ps generalizing m0 s0 with
+  | nil => exact h0
+  | cons p ps ih =>
+    obtain ⟨k, v⟩ := p
+    rw [List.foldl_cons, List.foldl_cons]
+    exact ih _ _ (rel_set h0 k v)
+
+/-! ## 6. growable array -/
+
+theorem arr_len_append (a : Arr V) (x : V) : (a.append x).len = a.len + 1 := by
+  simp [Arr.append, Arr.len]
+
+theorem arr_get_append (a : Arr V) (x : V) : (a.append x).get (a.len : Int) = some x := by
+  unfold Arr.get Arr.append Arr.len
+  have h1 : ¬ ((a.data.length : Int) < 0) := by omega
+  simp [h1]
+  omega
+
+theorem arr_get_old (a : Arr V) (x : V) (i : Int) (hi : i < a.len) : (a.append x).get i = a.get i := by
+  unfold Arr.get Arr.append Arr.len at *
+  by_cases h0 : i < 0
+  · simp [h0]
+  · have h2 : ¬ (i ≥ (a.data.length : Int)) := by omega
+    have h3 : ¬ (i ≥ ((a.data ++ [x]).length : Int)) := by simp; omega
+    have h4 : i.toNat < a.data.length := by omega
+    simp only [h0, h2, h3, or_self, if_false]
+    rw [List.getElem?_append_left h4]
+
+/-- out-of-range indices are refused by both `get` and `set`, and `set` leaves the array alone -/
+theorem arr_oor_refused (a : Arr V) (x : V) (i : Int) (h : i < 0 ∨ i ≥ a.len) :
+    a.get i = none ∧ (a.set i x).2 = false ∧ (a.set i x).1 = a := by
+  unfold Arr.len at h
+  simp [Arr.get, Arr.set, h]
+
+theorem arr_set_accepted (a : Arr V) (x : V) (i : Int) (h0 : 0 ≤ i) (h1 : i < a.len) :
+    (a.set i x).2 = true ∧ (a.set i x).1.len = a.len := by
+  unfold Arr.len at *
+  have : ¬ (i < 0 ∨ i ≥ (a.data.length : Int)) := by omega
+  simp [Arr.set, this]
+
+theorem arr_set_get (a : Arr V) (x : V) (i : Int) (h0 : 0 ≤ i) (h1 : i < a.len) :
+    (a.set i x).1.get i = some x := by
+  unfold Arr.len at *
+  have h : ¬ (i < 0 ∨ i ≥ (a.data.length : Int)) := by omega
+  have h4 : i.toNat < a.data.length := by omega
+  simp [Arr.set, Arr.get, h, h4]
+
+theorem arr_set_get_other (a : Arr V) (x : V) (i j : Int) (hij : j ≠ i) :
+    (a.set i x).1.get j = a.get j := by
+  by_cases h : i < 0 ∨ i ≥ (a.data.length : Int)
+  · simp [Arr.set, h]
+  · have hne : i.toNat ≠ j.toNat ∨ j < 0 := by omega
+    simp only [Arr.set, h, if_false, Arr.get, List.length_set]
+    split
+    · rfl
+    · rename_i hj
+      have : i.toNat ≠ j.toNat := by omega
+      rw [List.getElem?_set_ne this]
+
+/-- spatial invariant of the C array: the used prefix fits in the allocation -/
+def ArrInv (a : Arr V) : Prop := a.data.length ≤ a.capacity
+
+theorem arrInv_new (c : Nat) : ArrInv (Arr.new c : Arr V) := by simp [ArrInv, Arr.new]
+
+/-- `append` writes at `data.length`, which is inside the (possibly grown) allocation -/
+theorem arr_append_write_in_bounds (a : Arr V) (x : V) (h : ArrInv a) :
+    a.data.length < (a.append x).capacity := by
+  unfold ArrInv at h
+  unfold Arr.append minCapacity
+  simp only
+  split <;> (try split) <;> omega
+
+theorem arrInv_append (a : Arr V) (x : V) (h : ArrInv a) : ArrInv (a.append x) := by
+  have := arr_append_write_in_bounds a x h
+  unfold ArrInv
+  have hl : (a.append x).data.length = a.data.length + 1 := by simp [Arr.append]
+  omega
+
+theorem arrInv_set (a : Arr V) (i : Int) (x : V) (h : ArrInv a) : ArrInv (a.set i x).1 := by
+  unfold ArrInv at *
+  unfold Arr.set
+  split
+  · exact h
+  · simpa using h
+
+/-- capacity never shrinks and is never below the minimum once allocated by `new` -/
+theorem arr_capacity_mono (a : Arr V) (x : V) : a.capacity ≤ (a.append x).capacity := by
+  unfold Arr.append minCapacity
+  simp only
+  split <;> (try split) <;> omega
+
+/-- mutations of an array -/
+inductive ArrOp (V : Type)
+  | append (x : V)
+  | set (i : Int) (x : V)
+
+def Arr.step (a : Arr V) : ArrOp V → Arr V
+  | .append x => a.append x
+  | .set i x => (a.set i x).1
+
+/-- the abstract list semantics of the same mutations: out-of-range stores are dropped -/
+def listStep (l : List V) : ArrOp V → List V
+  | .append x => l ++ [x]
+  | .set i x => if 0 ≤ i ∧ i < (l.length : Int) then l.set i.toNat x else l
+
+theorem arr_step_refines (a : Arr V) (op : ArrOp V) : (a.step op).data = listStep a.data op := by
+  cases op with
+  | append x => rfl
+  | set i x =>
+    simp only [Arr.step, Arr.set, listStep]
+    by_cases h : i < 0 ∨ i ≥ (a.data.length : Int)
+    · have h' : ¬ (0 ≤ i ∧ i < (a.data.length : Int)) := by omega
+      simp [h, h']
+    · have h' : 0 ≤ i ∧ i < (a.data.length : Int) := by omega
+      simp [h, h']
+
+theorem arrInv_step (a : Arr V) (op : ArrOp V) (h : ArrInv a) : ArrInv (a.step op) := by
+  cases op with
+  | append x => exact arrInv_append a x h
+  | set i x => exact arrInv_set a i x h
+
+/-- any sequence of appends and stores leaves the array holding exactly the abstract list, within its
+    allocation -/
+theorem arr_refines_list (ops : List (ArrOp V)) (a : Arr V) (h : ArrInv a) :
+    (ops.foldl Arr.step a).data = ops.foldl listStep a.data ∧ ArrInv (ops.foldl Arr.step a) := by
+  induction ops generalizing a with
+  | nil => exact ⟨rfl, h⟩
+  | cons op ops ih =>
+    rw [List.foldl_cons, List.foldl_cons, ← arr_step_refines]
+    exact ih (a.step op) (arrInv_step a op h)
+
+theorem arr_refines_list_new (ops : List (ArrOp V)) (c : Nat) :
+    (ops.foldl Arr.step (Arr.new c)).data = ops.foldl listStep [] ∧ ArrInv (ops.foldl Arr.step (Arr.new c)) :=
+  arr_refines_list ops (Arr.new c) (arrInv_new c)
+
+/-- reads are list reads -/
+theorem arr_get_eq (a : Arr V) (i : Int) :
+    a.get i = if 0 ≤ i ∧ i < (a.data.length : Int) then a.data[i.toNat]? else none := by
+  unfold Arr.get
+  by_cases h : i < 0 ∨ i ≥ (a.data.length : Int)
+  · have h' : ¬ (0 ≤ i ∧ i < (a.data.length : Int)) := by omega
+    simp [h, h']
+  · have h' : 0 ≤ i ∧ i < (a.data.length : Int) := by omega
+    simp [h, h']
+
+/-! ## concrete instances: the hypotheses are satisfiable and the functions compute -/
+
+section Examples
+
+set_option maxRecDepth 20000
+
+/-- a bad hash (5 classes) to force long chains -/
+def exHash : Nat → Nat := fun k => k % 5
+
+/-- 15 insertions into a fresh 16-bucket table: crosses the threshold of 12, so a resize to 32 happens;
+    key 3 is written twice -/
+def exPairs : List (Nat × Nat) :=
+  [(0, 100), (5, 105), (10, 110), (1, 101), (6, 106), (3, 103), (8, 108), (13, 113), (2, 102), (7, 107),
+   (12, 112), (4, 104), (9, 109), (14, 114), (3, 999), (11, 111)]
+
+def exMap : Map Nat Nat := exPairs.foldl (fun m (k, v) => set exHash m k v) new
+
+example : Inv exHash exMap := inv_foldl_set exPairs (inv_new exHash)
+example : exMap.buckets.length = 32 := by decide
+example : exMap.size = 15 := by decide
+example : get exHash exMap 3 = some 999 := by decide
+example : get exHash exMap 13 = some 113 := by decide
+example : get exHash exMap 15 = none := by decide
+example : has exHash exMap 15 = false := by decide
+example : (exMap.buckets.getD 3 []).length = 3 := by decide
+example : (iterate exMap).length = 15 := by decide
+example : (iterate exMap).map (·.1) = [0, 5, 10, 11, 1, 6, 2, 7, 12, 3, 8, 13, 14, 9, 4] := by decide
+example : (fromPairs exHash exPairs).buckets.length = 32 := by decide
+example : get exHash (fromPairs exHash exPairs) 3 = some 999 := by decide
+example : Inv exHash (fromPairs exHash exPairs) := inv_fromPairs exHash exPairs
+example : (exPairs.reverse.find? (fun p => decide (p.1 = 3))).map (·.2) = some 999 := by decide
+example : (runImpl exHash (new : Map Nat Nat) [.set 1 10, .set 6 60, .set 1 11, .get 1, .has 6, .size]).2.length = 6 := by
+  decide
+example : Rel exHash exMap (exPairs.foldl (fun s (k, v) => Spec.set s k v) []) := by
+  have h : ∀ (ps : List (Nat × Nat)) (m : Map Nat Nat) (s : Spec Nat Nat), Rel exHash m s →
+      Rel exHash (ps.foldl (fun m (k, v) => set exHash m k v) m) (ps.foldl (fun s (k, v) => Spec.set s k v) s) := by
+    intro ps
+    induction ps with
+    | nil => intro m s h; exact h
+    | cons p ps ih => intro m s h; exact ih _ _ (rel_set h p.1 p.2)
+  exact h exPairs new [] (rel_new exHash)
+
+/-- arrays: growth from the minimum capacity, refusal of out-of-range indices -/
+def exArr : Arr Nat := [1, 2, 3, 4, 5].foldl Arr.append (Arr.new 0)
+
+example : exArr.capacity = 8 := by decide
+example : exArr.len = 5 := by decide
+example : exArr.get 4 = some 5 := by decide
+example : exArr.get 5 = none := by decide
+example : exArr.get (-1) = none := by decide
+example : (exArr.set 5 9).2 = false := by decide
+example : ((exArr.set 2 9).1.get 2, (exArr.set 2 9).2) = (some 9, true) := by decide
+example : ArrInv exArr := by unfold ArrInv; decide
+
+end Examples
 
 end FerretVerif.RtMap
